@@ -45,10 +45,10 @@ func (c *CtlBad1) Update(ctx *rux.Context) { c16Hit(5) }
 
 type CtlBad2 struct{}
 
-func (c *CtlBad2) Show(ctx *rux.Context)        { c16Hit(3) }
-func (c *CtlBad2) Store(s string)               {}
-func (c *CtlBad2) Edit(ctx *rux.Context) error  { return nil }
-func (c *CtlBad2) Create(ctx *rux.Context)      { c16Hit(1) }
+func (c *CtlBad2) Show(ctx *rux.Context)          { c16Hit(3) }
+func (c *CtlBad2) Store(s string)                 {}
+func (c *CtlBad2) Edit(ctx *rux.Context) error    { return nil }
+func (c *CtlBad2) Create(ctx *rux.Context)        { c16Hit(1) }
 func (c *CtlBad2) Delete(ctx *rux.Context, x int) {}
 
 var c16Bad = map[string]struct {
